@@ -22,6 +22,8 @@ if _plan_path:
 
     _knobs = _plan.get("knobs", {})
     _disk = _seams.SimDisk(buffer_size=_knobs.get("buffer_size", 8192), chunk_size=_knobs.get("chunk_size"))
+    for _l, _t in _plan.get("symlinks", {}).items():
+        _disk.symlink(_l, _t)
     for _p, _b in _plan["files"].items():
         _disk.put(_p, base64.b64decode(_b))
     for _p, _faults in _plan.get("plans", {}).items():
@@ -35,6 +37,8 @@ if _plan_path:
 
     def _dump_result():
         out = {
+            "cwd": _disk.cwd,
+            "resolved": {name: _disk.resolve(name) for name in _plan.get("report", [])},
             "files": {p: base64.b64encode(bytes(b)).decode() for p, b in _disk.files.items()},
             "open_handles": len(_disk.open_handles()),
             "events": [[e["e"], e["p"]] for e in _disk.events if e["e"] in ("open_w", "open_r")],
